@@ -219,6 +219,29 @@ def main():
         except (ProtocolError, NetworkError): pass
         except BaseException as e:
             bad.append({'target': 'http-stream-long-runs', 'input': repr(w[:60]) + ' ... (%d bytes)' % len(w), 'problem': '%s escapes the HTTP reader on a long run of a repeated element: %s' % (type(e).__name__, str(e)[:80])})
+    # what the FTP processor does with the NAMES of a listing (they arrive surrogate-escaped when not UTF-8): turning them into child URLs must at worst skip the entry
+    try:
+        import types as _ty
+        import wpull.processor.ftp as _F
+        from wpull.protocol.ftp.ls.listing import FileEntry
+        names = ['plain.txt', 'caf\udce9.txt', 'notes #1.txt', 'what?.txt', 'a:b.txt', '..', '.', '', ' ', '%', '%zz', '100%', 'x\ny', 'x\x00y', '\udcff\udcfe', 'dir/sub', '/abs', '//h/x', 'http://evil/', '{0}', 'a' * 5000,
+                 '\u202e', '\ud800', 'é', '[', ']', '[::1', '@', 'u:p@h']
+        for nm in names:
+            for ty in ('file', 'dir', 'symlink', None, 'weird'):
+                stats['ftp-listing-links'] = stats.get('ftp-listing-links', 0) + 1
+                sess = _F.FTPProcessorSession.__new__(_F.FTPProcessorSession)
+                added = []
+                sess._glob_pattern = None
+                sess._processor = _ty.SimpleNamespace(fetch_params=_ty.SimpleNamespace(retr_symlinks=True))
+                sess._fetch_rule = _ty.SimpleNamespace(check_ftp_request=lambda item_session: (True, 'ok'))
+                sess._item_session = _ty.SimpleNamespace(url_record=_ty.SimpleNamespace(level=0), add_child_url=lambda url, **kw: added.append(url))
+                resp = _ty.SimpleNamespace(request=_ty.SimpleNamespace(url_info=URLInfo.parse('ftp://h.example/pub/')), files=[FileEntry(nm, ty, None, None, None, None)])
+                try: sess._add_listing_links(resp)
+                except BaseException as e:
+                    if len([b for b in bad if b['target'] == 'ftp-listing-links']) < 6:
+                        bad.append({'target': 'ftp-listing-links', 'input': repr((nm[:40], ty)), 'problem': '%s: %s escapes FTPProcessorSession._add_listing_links (one bad name in a listing ends the crawl)' % (type(e).__name__, str(e)[:80])})
+    except ImportError as e:
+        stats['ftp-listing-links:not-importable'] = 1
     cases = sum(v for k, v in stats.items() if ':' not in k)
     doc = {'label': 'bounded', 'functions': ['wpull/protocol/ftp/ls/listing.py:ListingParser.parse_input', 'wpull/protocol/ftp/util.py:parse_machine_listing', 'wpull/decompression.py',
                                              'wpull/scraper/css.py:CSSScraper.scrape', 'wpull/scraper/javascript.py:JavaScriptScraper.scrape', 'wpull/robotstxt.py:RobotsTxtPool.load_robots_txt',
